@@ -336,6 +336,21 @@ fn sequences(tier: &str, seed: u64, mut f: impl FnMut(&[Vec<u8>]) -> bool) {
             }
         }
     }
+    // seeded random WIDE sequences: up to 4 documents, 6 names, 6 attribute names, up to 16 nodes, depth 4
+    let mut rngw = Rng(seed ^ 0x41de);
+    let nw = if thorough { 20000 } else { 2500 };
+    for _ in 0..nw {
+        let k = 1 + rngw.below(4);
+        let mut xs = Vec::new();
+        for _ in 0..k {
+            let d = random_doc(&mut rngw, &["a", "b", "c", "d", "e", "f"], &["u", "v", "w", "x", "y", "z"], 4, 16);
+            let s = Style { short_empty: rngw.chance(1, 2), text_last: rngw.chance(1, 2), ..Style::default() };
+            xs.push(write_doc(&d, &s).into_bytes());
+        }
+        if f(&xs) {
+            return;
+        }
+    }
     // seeded random sequences of larger documents
     let mut rng = Rng(seed ^ 0x5eed);
     let n = if thorough { 60000 } else { 3000 };
@@ -1144,7 +1159,8 @@ fn search_c15(tier: &str, _seed: u64) {
                 Ok(None) => {}
                 Ok(Some(e)) => {
                     println!("{{\"witness\":{{\"kind\":\"merge\",\"property\":\"C15\",\"a\":\"{}\",\"b\":\"{}\",\"violation\":\"{}\"}}}}", show_list(a), show_list(b), esc(&e));
-                    break 'o;
+                    stats.print("EXHAUSTIVE small pairs (stopped at the first counterexample)", &sample);
+                    return;
                 }
                 Err(_) => {
                     println!("{{\"witness\":{{\"kind\":\"merge\",\"property\":\"C15\",\"a\":\"{}\",\"b\":\"{}\",\"violation\":\"merge_necessity panicked\"}}}}", show_list(a), show_list(b));
@@ -1153,7 +1169,33 @@ fn search_c15(tier: &str, _seed: u64) {
             }
         }
     }
-    stats.print(&format!("EXHAUSTIVE: all pairs of duplicate-free tagged lists over an alphabet of {alpha} items with length <= {maxlen}"), &sample);
+    let mut found = false;
+    let exhaustive_evals = stats.evals;
+    // beyond the exhaustive bound: seeded random duplicate-free lists of up to 12 items over an alphabet of 16
+    let mut rng = Rng(_seed ^ 0xc15);
+    let rounds = if tier == "thorough" { 400000 } else { 60000 };
+    for _ in 0..rounds {
+        let mut mk = |rng: &mut Rng| -> L {
+            let len = rng.below(13);
+            let mut pool: Vec<u8> = (0..16).collect();
+            let mut l: L = Vec::new();
+            for _ in 0..len {
+                let x = pool.remove(rng.below(pool.len()));
+                l.push(if rng.chance(1, 2) { Necessity::Mandatory(x) } else { Necessity::Optional(x) });
+            }
+            l
+        };
+        let (a, b) = (mk(&mut rng), mk(&mut rng));
+        stats.note(&format!("{}|{}", show_list(&a), show_list(&b)));
+        let (a2, b2) = (a.clone(), b.clone());
+        if let Ok(Some(e)) = std::panic::catch_unwind(move || check_merge(&a2, &b2)) {
+            println!("{{\"witness\":{{\"kind\":\"merge\",\"property\":\"C15\",\"a\":\"{}\",\"b\":\"{}\",\"violation\":\"{}\"}}}}", show_list(&a), show_list(&b), esc(&e));
+            found = true;
+            break;
+        }
+    }
+    let _ = found;
+    stats.print(&format!("EXHAUSTIVE: all pairs of duplicate-free tagged lists over an alphabet of {alpha} items with length <= {maxlen} ({exhaustive_evals} pairs); then {rounds} seeded random pairs of duplicate-free lists of up to 12 items over an alphabet of 16"), &sample);
 }
 
 // ------------------------------------------------------------------------------------------------ C16
@@ -1339,7 +1381,22 @@ fn search_c16(tier: &str, _seed: u64) {
         }
     }
     let _ = idx;
-    stats.print(&format!("EXHAUSTIVE: all sequences of length <= {maxlen} over the operations add a|b (fresh child with an identifying subtree), mark optional a|b, remove a|b, re-add the last removed child, merge attribute, set multiple, set text; compared after every step with an ordered-map model; rendering checked at the end"), &sample);
+    // beyond the exhaustive bound: seeded random sequences of 6..16 operations over four names
+    let mut rng = Rng(_seed ^ 0xc16);
+    let big: Vec<String> = ["add:a", "add:b", "add:c", "add:d", "opt:a", "opt:b", "opt:c", "opt:d", "rem:a", "rem:b", "rem:c", "rem:d", "readd", "attr:k", "multi", "text"].iter().map(|s| s.to_string()).collect();
+    let rounds = if tier == "thorough" { 200000 } else { 20000 };
+    for _ in 0..rounds {
+        let len = 6 + rng.below(11);
+        let ops: Vec<String> = (0..len).map(|_| big[rng.below(big.len())].clone()).collect();
+        let key = ops.join(" ");
+        stats.note(&key);
+        let o2 = ops.clone();
+        if let Ok(Some(e)) = std::panic::catch_unwind(move || check_ops(&o2)) {
+            println!("{{\"witness\":{{\"kind\":\"ops\",\"property\":\"C16\",\"ops\":\"{}\",\"violation\":\"{}\"}}}}", key, esc(&e));
+            break;
+        }
+    }
+    stats.print(&format!("EXHAUSTIVE: all sequences of length <= {maxlen} over the operations add a|b (fresh child with an identifying subtree), mark optional a|b, remove a|b, re-add the last removed child, merge attribute, set multiple, set text; compared after every step with an ordered-map model; rendering checked at the end; then seeded random sequences of 6-16 operations over four names"), &sample);
 }
 
 // ------------------------------------------------------------------------------------------------ main
